@@ -18,7 +18,7 @@ type recStorage struct {
 	preV      []byte
 	batches   [][]*wal.Entry
 	reads     int
-	unlocked  int // storage accesses made while the isolation lock was free
+	unlocked  int  // storage accesses made while the isolation lock was free
 	failBatch bool // the storage layer refuses the batch (log full, entry too large, engine closed ...)
 	refused   int
 }
